@@ -1,4 +1,5 @@
 import Pybes3Verif.Props.C03
+import Pybes3Verif.Model.RawConcat
 import Pybes3Verif.Proofs.RawFileLemmas
 import Pybes3Verif.Proofs.RawFileLemmas2
 /-!
@@ -65,5 +66,58 @@ events; asking for one block returns the two events of the first block -/
 example : (arraysModel [] 1 none [1, 0] (encFile exFile)).map (·.length) = some 3 ∧
     (arraysModel [] 1 (some 1) [1, 0] (encFile exFile)).map (·.length) = some 2 := by decide +kernel
 example : (encFile exFile).length % 4 = 0 ∧ padded 5 = 8 ∧ padded 2 = 4 := by decide +kernel
+
+end Pybes3Verif.RawFile
+
+/-! ### `concatenate(files)`: several files read one after the other -/
+namespace Pybes3Verif.RawFile
+open Pybes3Verif.Raw Pybes3Verif.Raw.Spec Pybes3Verif.RawFile.Spec
+
+theorem wordAt_encFile_zero (f : FileSpec) (h : f.wf = true) : wordAt (encFile f) 0 = FILE_START := by
+  have hw := (FileSpec.wf_unpack f h)
+  have := wordAt_words (FILE_START :: f.header) [] (wordsToBytes [FILE_NAME, f.name.length] ++ padText f.name ++ wordsToBytes [f.tag.length] ++ padText f.tag ++
+      wordsToBytes (RUN_PARAMS :: f.params) ++
+      wordsToBytes (f.blocks.flatMap (fun b => [DATA_SEPERATOR, b.w1, b.w2, 4 * (b.events.flatMap encEvent).length] ++ b.events.flatMap encEvent)) ++
+      wordsToBytes (FILE_TAIL_START :: f.tail ++ [FILE_END])) 0 (by simp)
+    (by rw [wordsOk_cons]; exact ⟨FILE_START_lt, hw.2.2.2.1⟩)
+  simpa [encFile, List.append_assoc] using this
+
+private theorem mapM_files (sel : List Nat) (perBatch : Nat) (hp : 1 ≤ perBatch) (sched : List Nat) :
+    ∀ (fs : List FileSpec), (∀ f ∈ fs, f.wf = true) →
+      (fs.map encFile).mapM (arraysModel sel perBatch none sched) = some (fs.map (fun f => expected sel f.blocks))
+  | [], _ => rfl
+  | f :: fs, h => by
+    have h1 := file_roundtrip sel perBatch hp sched f (h f (by simp))
+    have h2 := mapM_files sel perBatch hp sched fs (fun g hg => h g (by simp [hg]))
+    simp only [List.map_cons, List.mapM_cons, h1, h2]
+    rfl
+
+private theorem expected_flatMap (sel : List Nat) : ∀ fs : List FileSpec,
+    (fs.map (fun f => expected sel f.blocks)).flatten = expected sel (fs.flatMap (·.blocks))
+  | [] => rfl
+  | f :: fs => by
+    simp only [List.map_cons, List.flatten_cons, List.flatMap_cons, expected_append, expected_flatMap sel fs]
+
+/-- C04, "concatenating files returns the same events in the same order": for every non-empty ordered list of well-formed files
+(each with its own name/tag length and blocks), every batch size ≥ 1 and every completion order, the result is the decode of all
+blocks of all files in list order -/
+theorem concatenate_roundtrip (sel : List Nat) (perBatch : Nat) (hp : 1 ≤ perBatch) (sched : List Nat) (fs : List FileSpec)
+    (hne : fs ≠ []) (h : ∀ f ∈ fs, f.wf = true) :
+    concatModel sel perBatch sched (fs.map encFile) = some (expected sel (fs.flatMap (·.blocks))) := by
+  unfold concatModel
+  have hall : (fs.map encFile).filter (fun f => wordAt f 0 == FILE_START) = fs.map encFile := by
+    apply List.filter_eq_self.mpr
+    intro x hx
+    obtain ⟨f, hf, rfl⟩ := List.mem_map.mp hx
+    simp [wordAt_encFile_zero f (h f hf)]
+  simp only [hall]
+  have hne' : (fs.map encFile).isEmpty = false := by
+    cases fs with
+    | nil => exact absurd rfl hne
+    | cons _ _ => rfl
+  rw [hne', mapM_files sel perBatch hp sched fs h]
+  simp only [Bool.false_eq_true, ↓reduceIte, Option.map_some, expected_flatMap]
+
+example : (concatModel [] 1 [1, 0] [encFile exFile, [1, 2, 3, 4], encFile exFile]).map (·.length) = some 6 := by decide +kernel
 
 end Pybes3Verif.RawFile
